@@ -160,6 +160,31 @@ type walker struct {
 	aliases map[types.Object]string
 	snaps   *[]sliceFact // an alias read while no mutex of the object is held
 	inplace *[]sliceFact // an element of the field's backing array overwritten in place
+	// pointer elements of container fields: locals that hold an element taken out of a container
+	// field (range value, index, map lookup), the writes made through them, and the element types
+	// that leave the object (returned by an exported method / passed to code outside the modelled objects)
+	elemOf     map[types.Object]string
+	elemWrites *[]elemWrite
+	published  *[]publishedElem
+	syncOps    *[]syncOp
+}
+
+// elemWrite: in method meth of typ, field `written` of a struct of type elem is assigned through a
+// pointer that was taken out of the container held in field `field`.
+type elemWrite struct {
+	typ, meth, field, elem, written, pos string
+}
+
+// publishedElem: pointers to elem leave the modelled object typ (how: "returned by M" / "passed to C").
+type publishedElem struct {
+	typ, elem, how string
+}
+
+// syncOp: a method of a sync object held in a field (WaitGroup, Cond, Once, Map, atomics) is called.
+type syncOp struct {
+	typ, meth, field, kind, op string
+	h                          held
+	pos                        string
 }
 
 // sliceFact names a slice-typed field (or a map-of-slices field) of a modelled type.
@@ -313,11 +338,15 @@ func genLocks(repo, out string, ps []*packages.Package) {
 	called := map[string]bool{}
 	// first pass to find which private methods are called internally at all
 	var snaps, inplace []sliceFact
+	var elemWrites []elemWrite
+	var published []publishedElem
+	var syncOps []syncOp
 	run := func(record bool) ([]access, []callFact, []acquireFact) {
 		var accs []access
 		var calls []callFact
 		var acqs []acquireFact
 		snaps, inplace = nil, nil
+		elemWrites, published, syncOps = nil, nil, nil
 		for _, m := range methods {
 			m.calls = nil
 			key := m.owner.name + "." + m.name
@@ -326,7 +355,9 @@ func genLocks(repo, out string, ps []*packages.Package) {
 				e = held{}
 			}
 			w := &walker{pkg: m.owner.pkg, owner: m.owner, meth: m, recv: m.recv, entry: e, accesses: &accs, calls: &calls, acquires: &acqs, structs: structs, fset: m.owner.pkg.Fset, recording: record,
-				aliases: map[types.Object]string{}, snaps: &snaps, inplace: &inplace}
+				aliases: map[types.Object]string{}, snaps: &snaps, inplace: &inplace,
+				elemOf: map[types.Object]string{}, elemWrites: &elemWrites, published: &published, syncOps: &syncOps}
+			w.publishResults()
 			w.block(m.decl.Body.List, e.clone(), false)
 		}
 		return accs, calls, acqs
@@ -617,6 +648,85 @@ func genLocks(repo, out string, ps []*packages.Package) {
 	}
 	nsnap := emitSlice("sliceSnapshots", "(type, method, field): a local alias of the slice held in the field (`x := recv.f`, `x := recv.m[k]`) is read while no mutex of the object is held – the backing array has escaped the critical section.", snaps)
 	ninpl := emitSlice("sliceInPlaceWrites", "(type, method, field): an element of the backing array of the slice held in the field is overwritten in place (`s[i] = v`, `append(s[:i], …)`), directly or through a local alias.", inplace)
+	// --- pointer elements that leave the object, and writes through element pointers
+	{
+		b.WriteString("/-- (type, element struct, how): pointers to the element struct leave the modelled object – returned by an\nexported method (possibly inside a slice or map) or passed to code outside the modelled objects (hook lists,\nwatchers, listeners, func values). -/\n")
+		b.WriteString("def publishedElems : List (String × String × String) := [\n")
+		sort.SliceStable(published, func(i, j int) bool {
+			a, c := published[i], published[j]
+			return a.typ+"|"+a.elem+"|"+a.how < c.typ+"|"+c.elem+"|"+c.how
+		})
+		seenP := map[string]bool{}
+		first := true
+		for _, p := range published {
+			k := p.typ + "|" + p.elem + "|" + p.how
+			if seenP[k] {
+				continue
+			}
+			seenP[k] = true
+			if !first {
+				b.WriteString(",\n")
+			}
+			first = false
+			fmt.Fprintf(&b, "  (%q, %q, %q)", p.typ, p.elem, p.how)
+		}
+		b.WriteString("\n]\n\n")
+		b.WriteString("/-- (type, method, container field, element struct, written field): a field of an element struct is assigned\nthrough a pointer that was taken out of the container held in the field (range value, index, map lookup).\n`*` = the whole struct is overwritten. -/\n")
+		b.WriteString("def elemWrites : List (String × String × String × String × String) := [\n")
+		sort.SliceStable(elemWrites, func(i, j int) bool {
+			a, c := elemWrites[i], elemWrites[j]
+			return a.typ+"|"+a.meth+"|"+a.field+"|"+a.elem+"|"+a.written < c.typ+"|"+c.meth+"|"+c.field+"|"+c.elem+"|"+c.written
+		})
+		seenW := map[string]bool{}
+		first = true
+		for _, e := range elemWrites {
+			k := e.typ + "|" + e.meth + "|" + e.field + "|" + e.elem + "|" + e.written
+			if seenW[k] {
+				continue
+			}
+			seenW[k] = true
+			if !first {
+				b.WriteString(",\n")
+			}
+			first = false
+			fmt.Fprintf(&b, "  (%q, %q, %q, %q, %q) /- %s -/", e.typ, e.meth, e.field, e.elem, e.written, e.pos)
+		}
+		b.WriteString("\n]\n\n")
+		// --- operations on sync objects held in fields
+		b.WriteString("structure SyncOp where\n  typ : String\n  meth : String\n  field : String\n  kind : String   -- sync.WaitGroup | sync.Cond | sync.Map | atomic.Uint32 | …\n  op : String     -- Add | Done | Wait | Signal | Broadcast | Load | Store | …\n  held : List String\n  heldExcl : List String\n  deriving Repr, DecidableEq\n\n")
+		b.WriteString("def syncOps : List SyncOp := [\n")
+		sort.SliceStable(syncOps, func(i, j int) bool {
+			a, c := syncOps[i], syncOps[j]
+			return a.typ+"|"+a.meth+"|"+a.field+"|"+a.op+"|"+a.pos < c.typ+"|"+c.meth+"|"+c.field+"|"+c.op+"|"+c.pos
+		})
+		seenO := map[string]bool{}
+		first = true
+		for _, o := range syncOps {
+			k := fmt.Sprint(o.typ, o.meth, o.field, o.op, heldList(o.h, false), heldList(o.h, true))
+			if seenO[k] {
+				continue
+			}
+			seenO[k] = true
+			if !first {
+				b.WriteString(",\n")
+			}
+			first = false
+			fmt.Fprintf(&b, "  ⟨%q, %q, %q, %q, %q, %s, %s⟩ /- %s -/", o.typ, o.meth, o.field, o.kind, o.op, leanList(heldList(o.h, false)), leanList(heldList(o.h, true)), o.pos)
+		}
+		b.WriteString("\n]\n\n")
+		// --- method table (the stress harness reports which exported methods its workloads reach)
+		b.WriteString("/-- (type, method, exported, file, line of the declaration) of every method of the modelled types. -/\n")
+		b.WriteString("def methodTable : List (String × String × Bool × String × Nat) := [\n")
+		for i, m := range methods {
+			pos := m.owner.pkg.Fset.Position(m.decl.Pos())
+			rel, _ := filepath.Rel(repo, pos.Filename)
+			if i > 0 {
+				b.WriteString(",\n")
+			}
+			fmt.Fprintf(&b, "  (%q, %q, %v, %q, %d)", m.owner.name, m.name, ast.IsExported(m.name), filepath.ToSlash(rel), pos.Line)
+		}
+		b.WriteString("\n]\n\n")
+	}
 	// entry assumptions, for the record
 	b.WriteString("/-- Locks a private helper may assume held on entry: the intersection over all its call sites. -/\n")
 	b.WriteString("def heldOnEntry : List (String × List String) := [\n")
@@ -636,7 +746,7 @@ func genLocks(repo, out string, ps []*packages.Package) {
 	if err := os.WriteFile(filepath.Join(out, "Locks.lean"), []byte(b.String()), 0o644); err != nil {
 		panic(err)
 	}
-	fmt.Printf("Locks.lean: %d types, %d methods, %d access facts, %d acquisitions, %d calls under lock, %d slice snapshots, %d in-place slice writes\n", len(order), len(methods), len(seen), len(aseen), len(cseen), nsnap, ninpl)
+	fmt.Printf("Locks.lean: %d types, %d methods, %d access facts, %d acquisitions, %d calls under lock, %d slice snapshots, %d in-place slice writes, %d writes through element pointers, %d sync-object operations\n", len(order), len(methods), len(seen), len(aseen), len(cseen), nsnap, ninpl, len(elemWrites), len(syncOps))
 }
 
 func sameHeld(a, b held) bool {
@@ -811,6 +921,11 @@ func (w *walker) stmt(s ast.Stmt, h held, async bool) (held, bool) {
 				}
 			}
 		}
+		// element pointers taken out of a container field, and writes through them
+		w.elemAssign(x.Lhs, x.Rhs)
+		for _, l := range x.Lhs {
+			w.elemWriteThrough(l)
+		}
 		for _, l := range x.Lhs {
 			// S[i] = v overwrites an element of S's backing array
 			if ix, ok := l.(*ast.IndexExpr); ok {
@@ -826,6 +941,7 @@ func (w *walker) stmt(s ast.Stmt, h held, async bool) (held, bool) {
 		return h, false
 	case *ast.IncDecStmt:
 		w.expr(x.X, h, true, async)
+		w.elemWriteThrough(x.X)
 		return h, false
 	case *ast.SendStmt:
 		w.expr(x.Chan, h, false, async)
@@ -887,6 +1003,19 @@ func (w *walker) stmt(s ast.Stmt, h held, async bool) (held, bool) {
 		return intersect(h, hb), false
 	case *ast.RangeStmt:
 		w.expr(x.X, h, false, async)
+		if f := w.containerOf(x.X); f != "" {
+			for _, kv := range []ast.Expr{x.Key, x.Value} {
+				if id, ok := kv.(*ast.Ident); ok && id.Name != "_" {
+					obj := w.pkg.TypesInfo.Defs[id]
+					if obj == nil {
+						obj = w.pkg.TypesInfo.Uses[id]
+					}
+					if obj != nil && ptrStruct(obj.Type()) != "" {
+						w.elemOf[obj] = f
+					}
+				}
+			}
+		}
 		hb, _ := w.block(x.Body.List, h.clone(), async)
 		return intersect(h, hb), false
 	case *ast.SwitchStmt:
@@ -1083,6 +1212,22 @@ func (w *walker) callExpr(c *ast.CallExpr, h held, async bool) {
 		}
 		w.expr(a, h, false, async)
 	}
+	// a method of a sync object held in a field of the receiver: recv.f.Wait(), recv.f.Add(1), …
+	if f, ok := c.Fun.(*ast.SelectorExpr); ok {
+		if fs, ok := f.X.(*ast.SelectorExpr); ok {
+			if id, ok := fs.X.(*ast.Ident); ok && w.recv != nil && w.pkg.TypesInfo.Uses[id] == w.recv {
+				if sel, ok := w.pkg.TypesInfo.Selections[fs]; ok && sel.Kind() == types.FieldVal && fieldKind(sel.Type()) == "sync" {
+					if w.recording {
+						kind := "sync"
+						if n := namedOf(sel.Type()); n != nil && n.Obj().Pkg() != nil {
+							kind = n.Obj().Pkg().Name() + "." + n.Obj().Name()
+						}
+						*w.syncOps = append(*w.syncOps, syncOp{w.owner.name, w.meth.name, fs.Sel.Name, kind, f.Sel.Name, h.clone(), w.pos(c)})
+					}
+				}
+			}
+		}
+	}
 	// classify the callee
 	switch f := c.Fun.(type) {
 	case *ast.SelectorExpr:
@@ -1105,6 +1250,7 @@ func (w *walker) callExpr(c *ast.CallExpr, h held, async bool) {
 					in = "typeparam." + tp.Obj().Name()
 				}
 				w.recordCall(c, h, "dyn:"+in+"."+f.Sel.Name, true, passesFn)
+				w.publishArgs(c, "dyn:"+in+"."+f.Sel.Name)
 				return
 			}
 			if n := namedOf(recvT); n != nil && n.Obj().Pkg() != nil {
@@ -1115,6 +1261,7 @@ func (w *walker) callExpr(c *ast.CallExpr, h held, async bool) {
 				} else if strings.HasPrefix(n.Obj().Pkg().Path(), "github.com/siyul-park/uniflow") {
 					// a method of a non-modelled uniflow type (hook lists etc.): may run user code
 					w.recordCall(c, h, q+"."+f.Sel.Name, strings.Contains(n.Obj().Name(), "Hook") || strings.Contains(n.Obj().Name(), "Listener"), passesFn)
+					w.publishArgs(c, q+"."+f.Sel.Name)
 				}
 				return
 			}
@@ -1125,6 +1272,7 @@ func (w *walker) callExpr(c *ast.CallExpr, h held, async bool) {
 			if v, ok := obj.(*types.Var); ok {
 				if _, isSig := v.Type().Underlying().(*types.Signature); isSig {
 					w.recordCall(c, h, "dyn:func."+f.Name, true, passesFn)
+					w.publishArgs(c, "dyn:func."+f.Name)
 				}
 			}
 		}
@@ -1177,6 +1325,211 @@ func (w *walker) sliceBase(e ast.Expr) string {
 		}
 	}
 	return ""
+}
+
+// ptrStruct returns the qualified name of U when t is *U with U a named struct type ("" otherwise).
+func ptrStruct(t types.Type) string {
+	p, ok := types.Unalias(t).(*types.Pointer)
+	if !ok {
+		return ""
+	}
+	n, ok := types.Unalias(p.Elem()).(*types.Named)
+	if !ok || n.Obj().Pkg() == nil {
+		return ""
+	}
+	if _, ok := n.Underlying().(*types.Struct); !ok {
+		return ""
+	}
+	return qual(n.Origin())
+}
+
+// ptrStructsIn lists the *U element types reachable through slices, arrays and maps of t.
+func ptrStructsIn(t types.Type, depth int) []string {
+	if depth > 4 {
+		return nil
+	}
+	if u := ptrStruct(t); u != "" {
+		return []string{u}
+	}
+	switch x := types.Unalias(t).Underlying().(type) {
+	case *types.Slice:
+		return ptrStructsIn(x.Elem(), depth+1)
+	case *types.Array:
+		return ptrStructsIn(x.Elem(), depth+1)
+	case *types.Map:
+		return append(ptrStructsIn(x.Key(), depth+1), ptrStructsIn(x.Elem(), depth+1)...)
+	case *types.Chan:
+		return ptrStructsIn(x.Elem(), depth+1)
+	}
+	return nil
+}
+
+// recvFieldOf returns the field name when e is recv.f (any type).
+func (w *walker) recvFieldOf(e ast.Expr) string {
+	sel, ok := e.(*ast.SelectorExpr)
+	if !ok {
+		return ""
+	}
+	id, ok := sel.X.(*ast.Ident)
+	if !ok || w.recv == nil || w.pkg.TypesInfo.Uses[id] != w.recv {
+		return ""
+	}
+	if s, ok := w.pkg.TypesInfo.Selections[sel]; !ok || s.Kind() != types.FieldVal {
+		return ""
+	}
+	return sel.Sel.Name
+}
+
+// containerOf returns the container field an expression denotes (or is part of): recv.f,
+// recv.f[k] (map of slices / slice of slices), a local slice alias of a field.
+func (w *walker) containerOf(e ast.Expr) string {
+	for {
+		p, ok := e.(*ast.ParenExpr)
+		if !ok {
+			break
+		}
+		e = p.X
+	}
+	if f := w.recvFieldOf(e); f != "" {
+		if tv, ok := w.pkg.TypesInfo.Types[e]; ok && tv.Type != nil {
+			switch tv.Type.Underlying().(type) {
+			case *types.Slice, *types.Map, *types.Array:
+				return f
+			}
+		}
+		return ""
+	}
+	if f := w.sliceBase(e); f != "" {
+		return f
+	}
+	if ix, ok := e.(*ast.IndexExpr); ok {
+		return w.containerOf(ix.X)
+	}
+	if sl, ok := e.(*ast.SliceExpr); ok {
+		return w.containerOf(sl.X)
+	}
+	return ""
+}
+
+// elemSource returns the container field when e is an element taken out of a container field
+// (recv.f[k], recv.f[k][i], alias[i]) or a local that already holds such an element.
+func (w *walker) elemSource(e ast.Expr) string {
+	for {
+		p, ok := e.(*ast.ParenExpr)
+		if !ok {
+			break
+		}
+		e = p.X
+	}
+	switch x := e.(type) {
+	case *ast.Ident:
+		return w.elemOf[w.pkg.TypesInfo.Uses[x]]
+	case *ast.IndexExpr:
+		return w.containerOf(x.X)
+	}
+	return ""
+}
+
+func (w *walker) elemAssign(lhs, rhs []ast.Expr) {
+	set := func(l, r ast.Expr) {
+		id, ok := l.(*ast.Ident)
+		if !ok || id.Name == "_" {
+			return
+		}
+		obj := w.pkg.TypesInfo.Defs[id]
+		if obj == nil {
+			obj = w.pkg.TypesInfo.Uses[id]
+		}
+		if obj == nil {
+			return
+		}
+		if f := w.elemSource(r); f != "" && ptrStruct(obj.Type()) != "" {
+			w.elemOf[obj] = f
+		} else {
+			delete(w.elemOf, obj)
+		}
+	}
+	if len(lhs) == 2 && len(rhs) == 1 {
+		set(lhs[0], rhs[0])
+		return
+	}
+	if len(lhs) == len(rhs) {
+		for i := range lhs {
+			set(lhs[i], rhs[i])
+		}
+	}
+}
+
+// elemWriteThrough records l when it assigns a field of (or the whole of) a struct reached through
+// a pointer that was taken out of a container field: x.F = v, x.F.G = v, *x = v, recv.f[k].F = v.
+func (w *walker) elemWriteThrough(l ast.Expr) {
+	if !w.recording {
+		return
+	}
+	written := ""
+	base := l
+	switch x := l.(type) {
+	case *ast.StarExpr:
+		base, written = x.X, "*"
+	case *ast.SelectorExpr:
+		// walk down to the innermost selector whose operand is a pointer
+		cur := x
+		for {
+			if tv, ok := w.pkg.TypesInfo.Types[cur.X]; ok && tv.Type != nil && ptrStruct(tv.Type) != "" {
+				base, written = cur.X, cur.Sel.Name
+				break
+			}
+			next, ok := cur.X.(*ast.SelectorExpr)
+			if !ok {
+				return
+			}
+			cur = next
+		}
+	default:
+		return
+	}
+	f := w.elemSource(base)
+	if f == "" {
+		return
+	}
+	tv, ok := w.pkg.TypesInfo.Types[base]
+	if !ok || tv.Type == nil {
+		return
+	}
+	u := ptrStruct(tv.Type)
+	if u == "" {
+		return
+	}
+	*w.elemWrites = append(*w.elemWrites, elemWrite{w.owner.name, w.meth.name, f, u, written, w.pos(l)})
+}
+
+// publishArgs: pointers to structs passed to code outside the modelled objects (hooks, watchers,
+// listeners, func values) have left the object.
+func (w *walker) publishArgs(c *ast.CallExpr, callee string) {
+	if !w.recording {
+		return
+	}
+	for _, a := range c.Args {
+		if tv, ok := w.pkg.TypesInfo.Types[a]; ok && tv.Type != nil {
+			for _, u := range ptrStructsIn(tv.Type, 0) {
+				*w.published = append(*w.published, publishedElem{w.owner.name, u, "passed to " + callee})
+			}
+		}
+	}
+}
+
+// publishResults: pointers to structs returned by an exported method have left the object.
+func (w *walker) publishResults() {
+	if !w.recording || w.meth == nil || !ast.IsExported(w.meth.name) || w.meth.decl.Type.Results == nil {
+		return
+	}
+	for _, r := range w.meth.decl.Type.Results.List {
+		if tv, ok := w.pkg.TypesInfo.Types[r.Type]; ok && tv.Type != nil {
+			for _, u := range ptrStructsIn(tv.Type, 0) {
+				*w.published = append(*w.published, publishedElem{w.owner.name, u, "returned by " + w.meth.name})
+			}
+		}
+	}
 }
 
 func (w *walker) sliceNote(to *[]sliceFact, field string, n ast.Node) {
@@ -1334,7 +1687,7 @@ func genKinds(repo, out string, ps []*packages.Package) {
 // (or a type switch), and ErrUnsupportedType is not mentioned inside the guarded branch.
 func genDecoders(repo, out string, ps []*packages.Package) {
 	type fact struct {
-		fn, pos, guard string
+		fn, pos, guard    string
 		unsupportedInside bool
 		delegates         bool
 		tailUnsupported   bool
